@@ -224,8 +224,13 @@ class isolation:
 
     def __enter__(self):
         ctx = self.ctx
+        # The global Destinations object is reset *in place*: eliot.add_destinations /
+        # remove_destination / add_global_fields are bound methods of this very object.
+        dests = _output.Logger._destinations
+        self.saved_dests = (dests, dict(dests.__dict__))
+        dests.__dict__.clear()
+        dests.__init__()
         self.saved = (
-            _output.Logger._destinations,
             _output._DEFAULT_LOGGER,
             _errors._error_extraction.registry,
             _action.time,
@@ -233,7 +238,6 @@ class isolation:
             _message.Message._time,
             warnings.filters[:],
         )
-        _output.Logger._destinations = _output.Destinations()
         _output._DEFAULT_LOGGER = _output.Logger()
         _errors._error_extraction.registry = dict(_errors._error_extraction.registry)
         _action.time = ctx.clock
@@ -243,8 +247,11 @@ class isolation:
         return ctx
 
     def __exit__(self, *a):
+        dests, d = self.saved_dests
+        _output.Logger._destinations = dests
+        dests.__dict__.clear()
+        dests.__dict__.update(d)
         (
-            _output.Logger._destinations,
             _output._DEFAULT_LOGGER,
             _errors._error_extraction.registry,
             _action.time,
